@@ -85,7 +85,6 @@ func (vc *VC) mapLookup(st *State, m, k Val, mt *types.Map) (Val, string) {
 	base := "M:" + typeKey(mt)
 	d := vc.heapGet(st, base+".dom", arraySort(sortRef, arraySort(ks, sortBool)))
 	found := and(not(eq(m.S, "0")), sel(sel(d, m.S), kt))
-	found = vc.sc.define("found", sortBool, found)
 	ls := leavesOf(mt.Elem())
 	terms := make([]string, len(ls))
 	z, zok := flatten(vc.zero(mt.Elem()))
@@ -169,17 +168,63 @@ func (vc *VC) rangeStart(fr *Frame, st *State, ins *ssa.Range) Val {
 	if mt, ok := ins.X.Type().Underlying().(*types.Map); ok {
 		it.isMap = true
 		it.mt = mt
+		// ghost set of keys already produced by this range statement
+		if ks, ok := vc.mapKeySort(mt); ok {
+			if name := vc.visitedName(fr, ins); name != "" {
+				gs := arraySort(ks, sortBool)
+				st.ghost[name] = Val{K: KGhost, GSort: gs, S: fmt.Sprintf("((as const %s) false)", gs)}
+			}
+		}
 	}
 	rangeIters[ins] = it
 	return Val{K: KRef, T: ins.Type(), S: "0"}
 }
 
-// rangeNext: for maps, yields an arbitrary key that is currently in the map
-// (no assumption about order or about which keys were already visited), or
-// ok=false.  Exit is allowed at any time only when ... we over-approximate:
-// ok is arbitrary, except that ok implies the key is present and !ok is
-// possible at any time.  (Sound for safety properties; "every key is
-// visited" needs an explicit ghost-visited invariant.)
+// visitedName: "visited<k>" where k is the ordinal of the loop driven by this range statement.
+func (vc *VC) visitedName(fr *Frame, rg *ssa.Range) string {
+	refs := rg.Referrers()
+	if refs == nil {
+		return ""
+	}
+	for _, r := range *refs {
+		if nx, ok := r.(*ssa.Next); ok {
+			if li := fr.loops[nx.Block()]; li != nil {
+				return fmt.Sprintf("visited%d", li.ordinal)
+			}
+		}
+	}
+	return ""
+}
+
+// loopWritesMap: the loop driven by this Next inserts into a map of the ranged type.
+func loopWritesMap(fr *Frame, ins *ssa.Next, mt *types.Map) bool {
+	li := fr.loops[ins.Block()]
+	if li == nil {
+		return true
+	}
+	for b := range li.body {
+		for _, in := range b.Instrs {
+			switch in := in.(type) {
+			case *ssa.MapUpdate:
+				if types.Identical(in.Map.Type().Underlying(), mt) {
+					return true
+				}
+			case *ssa.Call:
+				if _, isB := in.Call.Value.(*ssa.Builtin); !isB {
+					// calls may insert; be conservative unless the callee is known not to touch this map type
+					if in.Call.IsInvoke() || in.Call.StaticCallee() == nil {
+						continue
+					}
+				}
+			}
+		}
+	}
+	return false
+}
+
+// rangeNext for maps: yields a key that is in the map and has not been produced yet (in no
+// particular order), or ok=false. When the loop does not insert into the map, ok=false implies
+// that every key of the map has been produced (ghost set visited<k>).
 func (vc *VC) rangeNext(fr *Frame, st *State, ins *ssa.Next) Val {
 	rg, _ := ins.Iter.(*ssa.Range)
 	it := rangeIters[rg]
@@ -191,16 +236,24 @@ func (vc *VC) rangeNext(fr *Frame, st *State, ins *ssa.Next) Val {
 		vc.assume(st, vc.wf(st, k))
 		v, found := vc.mapLookup(st, it.X, k, it.mt)
 		vc.assume(st, implies(okv, found))
-		// an empty or nil map yields no iteration
 		vc.assume(st, implies(eq(vc.mapLen(st, it.X), i64(0)), not(okv)))
-		if st.ghost != nil {
-			st.ghost["rng.key"] = k
+		name := vc.visitedName(fr, rg)
+		if vis, has := st.ghost[name]; has && name != "" {
+			if kterm, ok := vc.mapKeyTerm(k); ok {
+				vc.assume(st, implies(okv, not(sel(vis.S, kterm))))
+				if !loopWritesMap(fr, ins, it.mt) {
+					ks, _ := vc.mapKeySort(it.mt)
+					base := "M:" + typeKey(it.mt)
+					d := vc.heapGet(st, base+".dom", arraySort(sortRef, arraySort(ks, sortBool)))
+					all := fmt.Sprintf("(forall ((k!q %s)) (! (=> (select (select %s %s) k!q) (select %s k!q)) :pattern ((select (select %s %s) k!q))))", ks, d, it.X.S, vis.S, d, it.X.S)
+					vc.assume(st, implies(not(okv), all))
+				}
+				st.ghost[name] = Val{K: KGhost, GSort: vis.GSort, S: vc.sc.define("vis", vis.GSort, ite(okv, store(vis.S, kterm, "true"), vis.S))}
+			}
 		}
 		kk, vv := k, v
-		if tt.At(1).Type() != nil {
-			if b, ok := tt.At(1).Type().(*types.Basic); ok && b.Kind() == types.Invalid {
-				kk = Val{K: KScalar, T: types.Typ[types.Bool], S: "false"}
-			}
+		if b, ok := tt.At(1).Type().(*types.Basic); ok && b.Kind() == types.Invalid {
+			kk = Val{K: KScalar, T: types.Typ[types.Bool], S: "false"}
 		}
 		if b, ok := tt.At(2).Type().(*types.Basic); ok && b.Kind() == types.Invalid {
 			vv = Val{K: KScalar, T: types.Typ[types.Bool], S: "false"}
